@@ -138,7 +138,7 @@ def lean_build_and_audit(prop, thorough=False):
 
 # properties whose model is additionally tied to the source by the translator (harness/translate.py): the formulas of the
 # temperature / variance-propagation block are re-read from the current source, emitted as Lean, and proved equal to the model
-TRANSLATED = {"C04", "C05", "C06", "C08", "C12", "C19"}
+TRANSLATED = {"C04", "C05", "C06", "C08", "C12", "C19"}   # = translate.SECTIONS
 
 
 def translated_obligations(prop, res):
@@ -149,7 +149,7 @@ def translated_obligations(prop, res):
     info = dict(source=str(Path(DTS_SRC) / "dtscalibration" / "dts_accessor.py"))
     res["translator"] = info
     try:
-        text, names = translate.translate_all(DTS_SRC)
+        text, names = translate.translate_for(prop, DTS_SRC)
     except translate.Untranslatable as e:
         info["status"] = "untranslatable"
         res["problems"].append({"kind": "translation", "detail": f"source left the translated fragment: {e}"})
